@@ -113,6 +113,23 @@ def run_chunk(binary, args, out, inflight):
     return r.returncode, r.stdout
 
 
+def private_copy(binary, work):
+    """Every process of one check executes the same private copy of the simulator, whatever another
+    job does to the shared build directory meanwhile."""
+    dst = os.path.join(work, os.path.basename(binary))
+    shutil.copy2(binary, dst)
+    return dst
+
+
+def repo_state():
+    try:
+        head = subprocess.run(["git", "-C", "/repo", "rev-parse", "--short", "HEAD"], stdout=subprocess.PIPE, text=True).stdout.strip()
+        dirty = subprocess.run(["git", "-C", "/repo", "status", "--porcelain", "--untracked-files=no"], stdout=subprocess.PIPE, text=True).stdout.strip()
+        return {"head": head, "tracked_files_modified": sorted(l[3:] for l in dirty.splitlines())}
+    except OSError:
+        return {}
+
+
 def hash_args(tier):
     """Which runs of a chunk report their event-log hash: all of them (quick) or the first 25."""
     return ["--hash-every", "1"] if tier == "quick" else ["--hash-first", "25"]
@@ -178,17 +195,18 @@ def read_marker(path):
 
 
 def hist_check(prop, tier, seed, runs, workers, secs):
-    t_start = time.time()
+    t_total = time.time()
     cfg = dict(HIST_TIERS[tier])
     if runs:
         cfg["runs"] = runs
     if secs:
         cfg["secs"] = secs
     build_s = build(["histsim"])
-    binary = os.path.join(BIN, "histsim")
+    t_start = time.time()  # the time budget is for simulating, not for compiling
     work = os.path.join(TARGET, "work", "%s-%d" % (prop, os.getpid()))
     shutil.rmtree(work, ignore_errors=True)
     os.makedirs(work)
+    binary = private_copy(os.path.join(BIN, "histsim"), work)
     os.makedirs(REPLAYS, exist_ok=True)
     os.makedirs(EVIDENCE, exist_ok=True)
 
@@ -300,6 +318,7 @@ def hist_check(prop, tier, seed, runs, workers, secs):
     # ---- violations -------------------------------------------------------------------------------
     known = load_known()
     unlisted = []
+    unconfirmed = []  # seen once, gone when the same run is repeated in a fresh process
     known_hits = {}
     by_class = {}
     for v in sorted(violations, key=lambda v: int(v["run_index"])):
@@ -313,6 +332,19 @@ def hist_check(prop, tier, seed, runs, workers, secs):
         # the minimised file must reproduce in a fresh process
         r = subprocess.run([binary, "replay", path], stdout=subprocess.PIPE, stderr=subprocess.STDOUT, text=True)
         reproduced = r.returncode == 1 and "REPRODUCED EXACTLY" in r.stdout
+        if r.returncode != 1:
+            # not even the violation came back: does the run it came from still fail, in a process of its own?
+            out = os.path.join(work, "confirm-%s.json" % v["run_index"])
+            rc, _ = run_chunk(binary, ["run", "--prop", prop, "--seed", str(seed), "--start", str(v["run_index"]), "--count", "1", "--max-ops", str(cfg["max_ops"])], out, os.path.join(work, "inflight-confirm"))
+            again = False
+            try:
+                with open(out) as f:
+                    again = bool(json.load(f)["violation_classes"])
+            except Exception:
+                pass
+            if not again:
+                unconfirmed.append((vclass, path))
+                continue
         k = match_known(known, prop, vclass, kinds_seq)
         if k is not None:
             known_hits[k.get("id", vclass)] = (k, path)
@@ -323,9 +355,40 @@ def hist_check(prop, tier, seed, runs, workers, secs):
     harness_errors = []
     foreign_crashes = 0
     unevaluable_deaths = 0
+    transient_deaths = 0
+
+    def dies_again(index):
+        """A death is attributed to the tree only if the very same run, alone in a fresh process and
+        with a generous time limit, dies again - twice. Anything else (a stalled or killed worker, a
+        full disk, the driver's own time limit on a busy machine) is transient."""
+        global CHUNK_TIMEOUT_S
+        saved = CHUNK_TIMEOUT_S
+        CHUNK_TIMEOUT_S = 600
+        try:
+            markers = []
+            for k in range(2):
+                out = os.path.join(work, "again-%d-%d.json" % (index, k))
+                infl = os.path.join(work, "inflight-again-%d-%d" % (index, k))
+                rc, _ = run_chunk(binary, ["run", "--prop", prop, "--seed", str(seed), "--start", str(index), "--count", "1", "--max-ops", str(cfg["max_ops"])], out, infl)
+                if rc == 0 or isinstance(rc, str):
+                    return None
+                mk = read_marker(infl)
+                if not mk or mk["valid"] != 1:
+                    return None
+                markers.append(mk)
+            return markers[-1] if markers[0]["phase"] == markers[1]["phase"] and markers[0]["op"] == markers[1]["op"] else None
+        finally:
+            CHUNK_TIMEOUT_S = saved
+
     for c in crashes:
         m = c["marker"]
         attributable = False
+        if m and m["valid"] == 1:
+            m = dies_again(m["index"])
+            if m is None:
+                transient_deaths += 1
+                continue
+            c["marker"] = m
         if m and m["valid"] == 1 and prop == "C10" and m["phase"] == 2:
             attributable = True
         elif m and m["valid"] == 1 and prop == "C10" and m["phase"] == 1:
@@ -370,8 +433,8 @@ def hist_check(prop, tier, seed, runs, workers, secs):
         else:
             harness_errors.append(c)
 
-    wall = time.time() - t_start
-    sim_wall = max(1e-9, wall - build_s)
+    wall = time.time() - t_total
+    sim_wall = max(1e-9, time.time() - t_start)
     fault_kinds = {
         "verifier_veto": counters.get("fault_verifier_veto_fired", 0),
         "jit_page_alloc_fail": counters.get("fault_jit_page_alloc_fail_fired", 0),
@@ -411,6 +474,8 @@ def hist_check(prop, tier, seed, runs, workers, secs):
             "stub_components": ["verifier / helper / stack-usage-calculator callbacks (harness fns through rbpf's own seams)", "process allocator wrapper (fails one 4096-aligned allocation on demand)"],
             "worker_crashes": len(crashes),
             "worker_deaths_in_fresh_vm_phase_unevaluable": unevaluable_deaths,
+            "worker_deaths_not_repeatable_ignored": transient_deaths,
+            "repo": repo_state(),
             "runs_that_corrupted_their_worker_unevaluable": len(garbled_runs),
             "worker_deaths_attributed_to_the_other_property": foreign_crashes,
         },
@@ -441,6 +506,8 @@ def hist_check(prop, tier, seed, runs, workers, secs):
             die("%d worker process(es) died outside the history-VM phase" % len(harness_errors))
     if unlisted:
         return 1
+    if unconfirmed:
+        die("%d violation(s) could not be reproduced in a fresh process (%s): the verdict is withheld" % (len(unconfirmed), ", ".join(c for c, _ in unconfirmed)))
     if det_failed and not known_hits:
         # With a violation in hand (listed or not) an address-dependent event log is a symptom (garbage read through
         # a wrong pointer); without one it means the harness itself is not deterministic.
